@@ -2,13 +2,16 @@
   C05 — XML export followed by import reproduces the topology (and is a fixpoint).
 
   Proved here, for all inputs, over the models of Hw.Io.Xml / Hw.Io.Base64 / Hw.Base.Num (tied to the C code byte for byte
-  by engine `xmlrt`): the byte-level building blocks of the round trip and the equivalence relation the round trip is
-  judged with.  The 3000-line object <-> attribute mapping of topology-xml.c and libxml2 are exercised, not modelled:
-  the round trip of whole topologies is established on the generated topologies of every run (tools/eng_xmlrt.py).
+  by engine `xmlrt`): the byte-level building blocks of the round trip, the equivalence relation the round trip is
+  judged with, the object level (one start tag, section (e)) and the tree level (nesting, child elements, the four child
+  lists, section (f)) of the v3 format.  Distances / memattrs / cpukinds / support elements, the v2-format flags and libxml2 are
+  exercised, not modelled: the round trip of whole topologies is established on the generated topologies of every run
+  (tools/eng_xmlrt.py).
 -/
 import Hw.Io.XmlLemmas
 import Hw.Io.Base64Lemmas
 import Hw.Io.XmlObjLemmas
+import Hw.Io.XmlTreeLemmas
 import Hw.Props.C04
 namespace Hw.Props.C05
 open Hw Hw.Xml Hw.Topo
@@ -224,6 +227,88 @@ theorem C05_info_scan_render_roundtrip (n v : List Nat) (fuel : Nat) (hf : 2 < f
     XmlObj.importInfo (scanAttrs fuel (renderAttrs (XmlObj.exportInfo (n, v)))) = .pair (sanitize n, sanitize v) :=
   XmlObj.info_scan_render n v fuel hf
 
+/-! ### (f) the tree level: nesting of `<object>`, `<info>`, `<page_type>`, `<userdata>` and the four child lists (v3 format)
+
+  `XmlTree.Tree` = an object (`ObjFields` + infos + page types + userdata entries) with its memory / normal / I/O / Misc child
+  lists; `exportTree` = hwloc__xml_v2export_object + hwloc__xml_export_object_contents as an element tree (tag, attributes, text,
+  children); `importTree` = hwloc__xml_import_object on such an element tree: the two child loops, page_type accepted only below
+  NUMA nodes and the root, the type-vs-parent-kind checks, hwloc_insert_object_by_parent's placement of every child at the end of
+  the list of its kind, the order test on normal children.  `TreeValid` (decidable): every object `Valid` in the context of its
+  parent, side data within the C field widths, every child in the list of its kind, normal children in complete_cpuset order.
+  Tie: engine `xmlrt` TREE lines — for every nolibxml v3 export of a topology of at most 160 objects, the element tree cut out
+  of the real export must equal `exportTree` of the original object tree, which must be `TreeValid`; `importTree` of the real
+  element tree must equal `normTree` of the original and agree with the reloaded topology object by object, list by list.
+  OUTSIDE (importer returns `outside`; never reached from the export of a valid tree): ignored objects, re-sorting of
+  out-of-order children, v1/v2 compatibility, the v2-format exporter flags. -/
+
+open Hw.XmlTree in
+/-- P0 (tree level).  For EVERY tree of valid objects — any depth, any arities, memory, normal, I/O and Misc children —
+    importing the element tree the exporter produces gives the tree back, every object normalised as at the object level
+    (`normTree`: strings filtered, info strings filtered, size-0 page types and refused userdata dropped) -/
+theorem C05_tree_roundtrip (t : XmlTree.Tree) (hv : XmlTree.TreeValid { root := true } t = true) :
+    XmlTree.importTree (XmlTree.exportTree true t) = .ok (XmlTree.normTree t) := XmlTree.importTree_exportTree t hv
+
+/-- P0 (tree level, start tags as bytes).  The same round trip with the attribute list of EVERY element of the export (objects,
+    infos, page types, userdata) rendered to bytes by the nolibxml exporter (`new_prop`: ` name="escaped value"`) and read back
+    by the nolibxml `next_attr` loop (`rescan`); nesting and text content stay tokens -/
+theorem C05_tree_roundtrip_start_tags_as_bytes (t : XmlTree.Tree) (hv : XmlTree.TreeValid { root := true } t = true) :
+    XmlTree.importTree (XmlTree.rescan (XmlTree.exportTree true t)) = .ok (XmlTree.normTree t) :=
+  XmlTree.importTree_rescan_exportTree t hv
+
+/-- every attribute of every element the tree exporter produces has a name over `[a-z_]` and a NUL-free value -/
+theorem C05_tree_export_wellformed (c : XmlObj.Ctx) (t : XmlTree.Tree) (hv : XmlTree.TreeValid c t = true) :
+    XmlTree.ElemOk (XmlTree.exportTree c.root t) := XmlTree.exportTree_ok c t hv
+
+/-- the same for a subtree in any context (parent type, parent with or without sets) -/
+theorem C05_subtree_roundtrip (c : XmlObj.Ctx) (t : XmlTree.Tree) (hv : XmlTree.TreeValid c t = true) :
+    XmlTree.importObj c (XmlTree.exportTree c.root t) = .ok (XmlTree.normTree t) := XmlTree.importObj_exportTree c t hv
+
+/-- the normalisation keeps the shape: the four child lists of every object come back with the same length and order -/
+theorem C05_tree_children_preserved (d : XmlTree.Node) (mem nor io misc : List XmlTree.Tree) :
+    XmlTree.normTree (.mk d mem nor io misc) =
+      .mk (XmlTree.normNode d) (mem.map XmlTree.normTree) (nor.map XmlTree.normTree) (io.map XmlTree.normTree) (misc.map XmlTree.normTree) := by
+  rw [XmlTree.normTree_mk, XmlTree.normList_eq_map, XmlTree.normList_eq_map, XmlTree.normList_eq_map, XmlTree.normList_eq_map]
+
+/-- P0 (fixpoint).  The reimported tree `t'` of a valid tree is valid again and is a fixpoint of export ∘ import: exporting it and
+    importing that gives `t'` itself, so the third export equals the second one -/
+theorem C05_tree_fixpoint (t : XmlTree.Tree) (hv : XmlTree.TreeValid { root := true } t = true) :
+    ∃ t', XmlTree.importTree (XmlTree.exportTree true t) = .ok t' ∧ XmlTree.TreeValid { root := true } t' = true ∧
+      XmlTree.importTree (XmlTree.exportTree true t') = .ok t' ∧
+      (∀ t'', XmlTree.importTree (XmlTree.exportTree true t') = .ok t'' → XmlTree.exportTree true t'' = XmlTree.exportTree true t') := by
+  have hv' := XmlTree.TreeValid_normTree _ t hv
+  have h2 : XmlTree.importTree (XmlTree.exportTree true (XmlTree.normTree t)) = .ok (XmlTree.normTree t) := by
+    have := XmlTree.importTree_exportTree _ hv'
+    rwa [XmlTree.normTree_idem] at this
+  refine ⟨XmlTree.normTree t, XmlTree.importTree_exportTree t hv, hv', h2, ?_⟩
+  intro t'' h
+  rw [h2] at h
+  cases h; rfl
+
+/-- P0 (second export).  The export of the reimported tree equals the first export except for what `clearTree` removes: the
+    `depth` of Bridges (and the unexported depth of Groups), which the core recomputes on every load, and page types of size 0,
+    which the importer drops (no loader produces them).  String filtering, info filtering and refused userdata do not show:
+    the exporter applies them itself. -/
+theorem C05_tree_second_export (t : XmlTree.Tree) (hv : XmlTree.TreeValid { root := true } t = true) :
+    ∃ t', XmlTree.importTree (XmlTree.exportTree true t) = .ok t' ∧
+      XmlTree.exportTree true t' = XmlTree.exportTree true (XmlTree.clearTree t) :=
+  ⟨XmlTree.normTree t, XmlTree.importTree_exportTree t hv, XmlTree.exportTree_normTree true t⟩
+
+/-- for an object that is neither a Group nor a Bridge there is nothing to clear -/
+theorem C05_tree_second_export_same_attrs (f : XmlObj.ObjFields) (hG : f.type ≠ Hw.Topo.tGROUP) (hB : f.type ≠ Hw.Topo.tBRIDGE) :
+    XmlTree.clearDerived f = f := XmlTree.clearDerived_id f hG hB
+
+/-- one round trip normalises completely: `normTree` is idempotent and keeps validity -/
+theorem C05_tree_norm_idem (t : XmlTree.Tree) : XmlTree.normTree (XmlTree.normTree t) = XmlTree.normTree t := XmlTree.normTree_idem t
+theorem C05_tree_norm_valid (c : XmlObj.Ctx) (t : XmlTree.Tree) (hv : XmlTree.TreeValid c t = true) :
+    XmlTree.TreeValid c (XmlTree.normTree t) = true := XmlTree.TreeValid_normTree c t hv
+
+/-- child elements one by one: a page type, and a userdata entry (plain or base64, any length) come back as exported -/
+theorem C05_userdata_roundtrip (acc : XmlTree.Acc) (ptOk : Bool) (u : XmlTree.UData) (hv : XmlTree.udValid u = true) :
+    XmlTree.importSub ptOk acc (XmlTree.udElem u) = .ok { acc with uds := acc.uds ++ [u] } := XmlTree.importSub_ud ptOk acc u hv
+theorem C05_pagetype_roundtrip (acc : XmlTree.Acc) (p : Nat × Nat) (h1 : p.1 < 2 ^ 64) (h2 : p.2 < 2 ^ 64) :
+    XmlTree.importSub true acc (XmlTree.ptElem p) = .ok (if p.1 ≠ 0 then { acc with pts := acc.pts ++ [p] } else acc) :=
+  XmlTree.importSub_pt acc p h1 h2
+
 /-! ### non-vacuity -/
 
 -- valid objects of each attribute-union shape (the engine also checks `Valid` on every sampled real object)
@@ -245,6 +330,44 @@ example : XmlObj.Valid { root := false, parentType := 0 }
     { type := 16, osidx := none, gp := 80, cpuset := none, ccpuset := none, nodeset := none, cnodeset := none, allowed := none,
       name := none, subtype := none, attrs := [0, 1, 0, 0, 0, 255], pci := none } = true := by decide
 
+
+-- a valid tree with memory (NUMA node with page types, one of size 0), normal (two PUs), I/O (bridge with an OS device below)
+-- and Misc children, markup in strings, base64 / plain / refused userdata: the hypotheses of the tree theorems hold, and the
+-- round trip really normalises (the info value loses \x01, the size-0 page type and the refused userdata entry disappear)
+def exPU (os gp : Nat) : XmlTree.Tree :=
+  .mk { f := { type := 4, osidx := some os, gp := gp, cpuset := some (2 ^ os), ccpuset := some (2 ^ os), nodeset := some 1, cnodeset := some 1,
+               allowed := none, name := none, subtype := none, attrs := [0, 0, 0, 0, 0, 0], pci := none } } [] [] [] []
+def exTree : XmlTree.Tree :=
+  .mk { f := { type := 0, osidx := some 0, gp := 1, cpuset := some 3, ccpuset := some 3, nodeset := some 1, cnodeset := some 1, allowed := some (3, 1),
+               name := some (str "café<&>"), subtype := none, attrs := [0, 0, 0, 0, 0, 0], pci := none },
+        infos := [(str "Backend", str "x<y\x01")],
+        uds := [{ name := some (str "B"), b64 := true, data := [0, 255, 7, 60] }, { name := none, b64 := false, data := str "plain" },
+                { name := none, b64 := false, data := [1] }] }
+    [.mk { f := { type := 14, osidx := some 0, gp := 5, cpuset := some 3, ccpuset := some 3, nodeset := some 1, cnodeset := some 1, allowed := none,
+                  name := none, subtype := none, attrs := [4096, 0, 0, 0, 0, 0], pci := none }, pts := [(4096, 1), (0, 7), (2097152, 0)] } [] [] [] []]
+    [exPU 0 2, exPU 1 3]
+    [.mk { f := { type := 16, osidx := none, gp := 80, cpuset := none, ccpuset := none, nodeset := none, cnodeset := none, allowed := none,
+                  name := none, subtype := none, attrs := [0, 1, 0, 0, 0, 255], pci := none } } [] []
+        [.mk { f := { type := 18, osidx := none, gp := 81, cpuset := none, ccpuset := none, nodeset := none, cnodeset := none, allowed := none,
+                      name := some (str "eth0"), subtype := none, attrs := [4, 0, 0, 0, 0, 0], pci := none } } [] [] [] []] []]
+    [.mk { f := { type := 19, osidx := none, gp := 90, cpuset := none, ccpuset := none, nodeset := none, cnodeset := none, allowed := none,
+                  name := some (str "misc"), subtype := none, attrs := [0, 0, 0, 0, 0, 0], pci := none } } [] [] [] []]
+example : XmlTree.TreeValid { root := true } exTree = true := by decide
+example : XmlTree.TreeValid { root := false, parentType := 0 } (exPU 1 3) = true := by decide
+example : (XmlTree.normTree exTree).d.infos = [(str "Backend", str "x<y")] ∧ (XmlTree.normTree exTree).d.uds.length = 2 ∧
+    ((XmlTree.normTree exTree).mem.map (·.d.pts)) = [[(4096, 1), (2097152, 0)]] := by decide
+-- the importer's checks at work: a PU below a NUMA node, a Misc element in the normal list, swapped PUs are not TreeValid;
+-- a `<page_type>` below a PU and an `<info>` after the first `<object>` child are rejected
+example : XmlTree.TreeValid { root := false, parentType := 14 } (exPU 1 3) = false := by decide
+example : XmlTree.TreeValid { root := true } (.mk exTree.d [] (exTree.misc ++ exTree.nor) [] []) = false := by decide
+example : XmlTree.TreeValid { root := true } (.mk exTree.d exTree.mem [exPU 1 3, exPU 0 2] [] []) = false := by decide
+example : (match XmlTree.importObj { root := false, parentType := 0 }
+    (.mk XmlTree.tagObject (XmlObj.exportAttrs false (exPU 1 3).d.f) none [XmlTree.ptElem (4096, 1)]) with | .reject => true | _ => false) = true := by decide
+example : (match XmlTree.importTree
+    (.mk XmlTree.tagObject (XmlObj.exportAttrs true exTree.d.f) none [XmlTree.exportTree false (exPU 0 2), XmlTree.infoElem (str "a", str "b")])
+    with | .reject => true | _ => false) = true := by decide
+example : XmlTree.udValid { name := none, b64 := true, data := [0, 255] } = true := by decide
+example : (2 : Nat) ≠ Hw.Topo.tGROUP ∧ (2 : Nat) ≠ Hw.Topo.tBRIDGE := by decide
 
 -- "a<b&c" -> a&lt;b&amp;c  and back, scanning stops on the quote
 example : escape [97, 60, 98, 38, 99] = [97, 38, 108, 116, 59, 98, 38, 97, 109, 112, 59, 99] := by decide
